@@ -2,17 +2,17 @@
 """copy a verified seeded change from /tmp/seed/out/<id> into /verif/seeded/<id> (patch, demonstration, meta)"""
 import json, os, shutil, sys
 for sid in sys.argv[1:]:
-    src, dst = f"/tmp/seed/out/{sid}", f"/verif/seeded/{sid}"
+    src, dst = os.path.join(os.environ.get("SEED_OUT", "/tmp/seed/out"), sid), f"/verif/seeded/{sid}"
     os.makedirs(dst, exist_ok=True)
     for f in ("patch.diff", "demo_test.rs"):
         shutil.copy(os.path.join(src, f), dst)
     m = json.load(open(os.path.join(src, "meta.json")))
     v = open(os.path.join(src, "verify.txt")).read().strip()
-    meta = {"property": m["property"], "breaks": m["summary"], "needs": m["needs"], "files_changed": m.get("files_changed"),
+    meta = {"property": m["property"], "breaks": m.get("summary", m.get("breaks")), "needs": m["needs"], "files_changed": m.get("files_changed"),
             "author": "independent sub-agent (given only the property text and a scratch worktree)",
             "confirmed_by_me": {"ran": "tools/verify_seed.sh (apply patch; cargo test --workspace --no-fail-fast --offline --lib --bins --tests; "
                                        "copy demo_test.rs to <crate>/tests/seed_demo.rs; cargo test --test seed_demo with and without the patch)",
                                 "result": v},
-            "demo_instructions": m["demo"], "detected_by": None}
+            "demo_instructions": m.get("demo", "copy demo_test.rs to <demo_crate>/tests/seed_demo.rs; cargo test -p <demo_crate> --offline --test seed_demo"), "detected_by": None}
     json.dump(meta, open(os.path.join(dst, "meta.json"), "w"), indent=1)
     print("imported", sid)
